@@ -18,7 +18,7 @@
     output: one field per operation (ok:text or err:Index), then the frame text,
     then the skeleton of the final tree. *)
 From V.lib Require Import Prelude Wire.
-From V.model Require Import Text Escape.
+From V.model Require Import Text Escape TextCodec.
 
 Definition op_h : str := [104]%N.
 
@@ -101,11 +101,33 @@ Definition run_lx (s : str) : str :=
   let e := lxml_text_escape s in
   fields [show_str e; match lex_text e with OneText v => w_ok ++ show_str v | BrokenText => w_badcase end].
 
+(** whole-body level of save / re-open (model/TextCodec.v).
+    op se: the tokens describe a prior state and a history exactly as for op h; fields = the text enc_body writes for
+    the final body, then whether every run / field text of that body is a string of XML characters (xml_body).
+    op pa: the one token is a text; ok + the skeleton of the body dec_body reads, or None when the text is not
+    recognised. *)
+Definition op_se : str := [115; 101]%N.
+Definition op_pa : str := [112; 97]%N.
+Definition run_se (toks : list str) : str :=
+  let (c, _) := fold_left step toks (None, []) in
+  let b := cell_body c in
+  fields [show_str (enc_body b); show_bool (xml_body b)].
+Definition run_pa (s : str) : str :=
+  match dec_body s with
+  | Some b => w_ok ++ show_cell (Some b)
+  | None => w_none
+  end.
+
 Definition run_c04 (args : list str) : str :=
   match args with
   | op :: toks =>
       if str_eqb op op_lx then
         match toks with [s] => run_lx s | [] => run_lx [] | _ => w_badcase end
+      else
+      if str_eqb op op_se then run_se toks
+      else
+      if str_eqb op op_pa then
+        match toks with [s] => run_pa s | [] => run_pa [] | _ => w_badcase end
       else
       if str_eqb op op_h then
         let (c, outs) := fold_left step toks (None, []) in
